@@ -17,8 +17,11 @@ pub enum Kind {
     LineComment,
     /// `--|` documentation / text line
     DocLine,
-    /// `/- … -/` with nesting; unterminated runs to end of input
+    /// `/- … -/` with nesting
     BlockComment,
+    /// `/- …` that is still open at the end of the input: not a comment but a lexical irregularity (the text after the
+    /// opener is neither parsed nor skipped by a complete comment)
+    UnterminatedComment,
     /// `-/` at comment depth 0
     StrayClose,
     /// any other single character
@@ -41,7 +44,7 @@ impl Token {
         !self.is_comment()
     }
     pub fn is_irregular(&self) -> bool {
-        matches!(self.kind, Kind::StrayClose | Kind::Unknown)
+        matches!(self.kind, Kind::StrayClose | Kind::Unknown | Kind::UnterminatedComment)
     }
     pub fn text<'a>(&self, src: &'a str) -> &'a str {
         &src[self.start..self.end]
@@ -293,7 +296,7 @@ pub fn scan(src: &str) -> Vec<Token> {
         i = end;
     }
     if depth > 0 {
-        out.push(Token { kind: Kind::BlockComment, start: comment_start, end: src.len() });
+        out.push(Token { kind: Kind::UnterminatedComment, start: comment_start, end: src.len() });
     }
     out
 }
